@@ -283,7 +283,9 @@ extern "C"
     typedef int (*once_t)(pthread_once_t*, void (*)(void));
     static once_t real_once = (once_t)dlsym(RTLD_NEXT, "pthread_once");
     if(!active() || !M) return real_once(c, fn);
-    yield("pthread_once");
+    // no scheduling point of its own: whether a once-routine still has to run depends on what the process did before
+    // this simulated run (a routine that ran in an earlier run of the same process is done), and the schedule of a run
+    // must not depend on that. A task only blocks here while another task is inside the routine.
     {
       ModelGuard g;
       OnceState* o = &M->once[c];
@@ -306,7 +308,6 @@ extern "C"
       o->state = 2;
       *c = 2;   // glibc's "done" state: calls outside the simulation must not run the routine again
     }
-    yield("pthread_once_done");
     return 0;
   }
 
